@@ -123,7 +123,17 @@ pub fn inputs(tier: Tier) -> serde_json::Value {
   for sch in ["r = m<int>\nm<t> = {* tstr => t}\n", "r = m<int>\nm<t> = {+ tstr => t}\n", "r = m<tstr, int>\nm<k, v> = {* k => v}\n", "r = [* m<int>]\nm<t> = {a: t, * tstr => t}\n"] {
     schemas.push(sch.to_string());
   }
-  let universe = json_universe(Tier::Quick);
+  // regular expressions whose meaning depends on tables of the regex crates (case folding, Unicode classes): which tables
+  // are compiled in is decided by cargo's feature unification over the whole dependency graph
+  for pat in ["(?i)a", "(?i)\\u00e9", "\\p{Lu}", "\\d+", "\\w", "[[:alpha:]]+", "\\p{Greek}", "(?i)[a-c]x"] {
+    schemas.push(format!("r = tstr .regexp \"{pat}\"\n"));
+    schemas.push(format!("r = [* tstr .regexp \"{pat}\"]\n"));
+  }
+  let mut universe = json_universe(Tier::Quick);
+  for t in ["A", "\u{c9}", "\u{e9}", "1", "Ax", "\u{3b1}", "\u{663}"] {
+    universe.push(crate::docs::t(t));
+    universe.push(crate::cborref::RV::Array(vec![crate::docs::t(t)]));
+  }
   let json_docs: Vec<String> = universe.iter().map(to_json_text).collect();
   let cbor_docs: Vec<String> = universe.iter().chain(cbor_extra(Tier::Quick).iter()).map(|v| hex(&crate::cborref::preferred(v))).collect();
   let csv_docs: Vec<&str> = vec!["a,1\n", "a,b\n", "1,2\n", "h1,h2\na,1\n", "a,1\r\nb,2\r\n", "\"a,b\",1\n", "1.5,x\n", "", "a\n", "-1,100\n", "007,1e5\n"];
